@@ -946,6 +946,48 @@ func cmdCheck(args []string) int {
 				report(o, "the emitted statement a proved contract names is no longer printed: "+u[k+2:])
 			}
 		}
+		// The contract of a function whose clauses were proved at lock time no longer fits the function: a clause that
+		// every obligation depends on (requires, invariant) cannot be evaluated although the names in it exist - a
+		// parameter the contract talks about was removed or changed its type, a local changed its shape - or it names a
+		// parameter that the function had at lock time and has no longer. The function then produces no obligation at
+		// all; silence would let the whole contract be waved through (seeded change C10-i removes the import-chain
+		// parameter of collectPackages together with the cycle test). A vanished *local* is still not reported.
+		if k := strings.Index(u, ": spec: "); k > 0 && !strings.Contains(u, "names the format literal") {
+			fk := u[:k]
+			msg := u[k+2:]
+			shape := !strings.Contains(msg, "unknown identifier")
+			if !shape {
+				// unknown identifier "x": a violation only if x was a parameter when the lock was written
+				if q := strings.Index(msg, "unknown identifier \""); q >= 0 {
+					name := msg[q+len("unknown identifier \""):]
+					if e := strings.Index(name, "\""); e > 0 {
+						name = name[:e]
+					}
+					for _, pn := range lf.Params[fk] {
+						if pn == name {
+							shape = true
+						}
+					}
+				}
+			}
+			if shape && w.Funcs[fk] != nil {
+				hit := ""
+				for g, e := range locked {
+					if e.Discharged > 0 && strings.HasPrefix(g, fk+"#") && (strings.HasPrefix(g[len(fk)+1:], "POST:") || strings.HasPrefix(g[len(fk)+1:], "ITER:") || strings.HasPrefix(g[len(fk)+1:], "INV-")) {
+						// name a postcondition when there is one (P sorts before I only by accident of spelling)
+						better := hit == "" || (strings.Contains(g, "#POST:") && !strings.Contains(hit, "#POST:")) ||
+							(strings.Contains(g, "#POST:") == strings.Contains(hit, "#POST:") && g < hit)
+						if better {
+							hit = g
+						}
+					}
+				}
+				if hit != "" {
+					o := &Obligation{ID: hit + "#0", Kind: "POST", Func: fk, Status: "ill-typed", Solver: "go/types", Model: msg}
+					report(o, "the proved contract of a function no longer fits its signature or locals: "+msg)
+				}
+			}
+		}
 		fmt.Printf("OUT-OF-SUBSET %s\n", u)
 	}
 	if nLocked == 0 && violations == 0 {
